@@ -36,7 +36,7 @@ pub struct Log {
     pub pulled: Vec<u64>,
 }
 
-#[derive(Debug, Clone)]
+#[derive(Clone)]
 pub struct Mem {
     pub files: Arc<Mutex<HashMap<String, Resp>>>,
     pub log: Arc<Mutex<Log>>,
@@ -44,11 +44,21 @@ pub struct Mem {
     pub cap: usize,
     /// chunk size used by `put` (0 = one chunk)
     pub chunk: usize,
+    /// called every time a stream is polled, before the item is produced
+    pub observer: Arc<Mutex<Option<Box<dyn FnMut() + Send>>>>,
+    /// response for any path below `/t/` that has no entry of its own
+    pub any_target: Arc<Mutex<Option<Resp>>>,
+}
+
+impl std::fmt::Debug for Mem {
+    fn fmt(&self, f: &mut std::fmt::Formatter<'_>) -> std::fmt::Result {
+        write!(f, "Mem")
+    }
 }
 
 impl Mem {
     pub fn new(cap: usize) -> Self {
-        Mem { files: Default::default(), log: Default::default(), cap, chunk: 0 }
+        Mem { files: Default::default(), log: Default::default(), cap, chunk: 0, observer: Arc::new(Mutex::new(None)), any_target: Arc::new(Mutex::new(None)) }
     }
     pub fn put(&self, path: &str, bytes: Vec<u8>) {
         let chunks = if self.chunk == 0 || bytes.is_empty() {
@@ -92,7 +102,11 @@ impl Transport for Mem {
                 return Err(TransportError::new(TransportErrorKind::Other, url));
             }
         }
-        let resp = self.files.lock().unwrap().get(&path).cloned().unwrap_or(Resp::NotFound);
+        let mut resp = self.files.lock().unwrap().get(&path).cloned();
+        if resp.is_none() && path.starts_with("/t/") {
+            resp = self.any_target.lock().unwrap().clone();
+        }
+        let resp = resp.unwrap_or(Resp::NotFound);
         match resp {
             Resp::NotFound => Err(TransportError::new(TransportErrorKind::FileNotFound, url)),
             Resp::OpenErr => Err(TransportError::new(TransportErrorKind::Other, url)),
@@ -101,7 +115,11 @@ impl Transport for Mem {
                 let u = url.clone();
                 let mut it = chunks.into_iter();
                 let mut endless: Option<Vec<u8>> = None;
+                let observer = self.observer.clone();
                 let s = futures::stream::poll_fn(move |_| {
+                    if let Some(f) = observer.lock().unwrap().as_mut() {
+                        f();
+                    }
                     let item = if let Some(e) = &endless {
                         Some(Chunk::Data(e.clone()))
                     } else {
